@@ -216,6 +216,37 @@ def run(chk, facts, info):
              '(AdrCnt, CodeLen, BAsmCode, ...) only if the module itself or a core module assigns it: an encoding must '
              'not be built from what another target\'s generator left behind', min_instances=40)
     foreign_scratch_rule(chk, facts.program('asl'), 'C14-R5', only=set(FILES), min_instances=900)
+    chk.rule('C14-R7', 'code65.c: every variable that receives "target - (EProgCounter() + k)" is 16 bits wide, so that the '
+             'distance of a relative branch is taken modulo the 64K address space like the processor does (a branch from '
+             '$FFF0 to $0005 is +$13, not -$FFED)', min_instances=3)
+    n7 = 0
+    f65 = facts.unit('code65.c')
+    for f in f65.funcs.values():
+        if f.file != 'code65.c':
+            continue
+
+        def pcdiff(e):
+            x = nocast(e)        # the value itself is the difference, not something computed from it
+            return isinstance(x, tuple) and len(x) > 3 and x[0] == 'b' and x[1] == '-' and \
+                mentions(x[3], lambda y: isinstance(y, (list, tuple)) and len(y) > 1 and y[0] == 'call' and callee_name(y) == 'EProgCounter')
+        for b, i, ln, m in f.nodes():
+            tgt = None
+            if m[0] == 'decl' and m[2] is not None and pcdiff(m[2]):
+                tgt = m[1]
+            elif is_assign(m) and strip(m[2])[0] == 'l' and (
+                    (m[1] == '=' and pcdiff(m[3])) or
+                    (m[1] == '-=' and mentions(m[3], lambda y: isinstance(y, (list, tuple)) and len(y) > 1 and y[0] == 'call' and callee_name(y) == 'EProgCounter'))):
+                tgt = strip(m[2])[1]
+            if tgt is None:
+                continue
+            ty = f.locals.get(tgt, {})
+            n7 += 1
+            ok = abs(ty.get('bits', 0)) == 16
+            chk.ob('C14-R7', 'code65.c:%s:%s' % (f.name, tgt), ok, f.loc(ln), '16-bit distance' if ok else
+                   'the branch distance is held in %s (%d bits): a branch across the $FFFF/$0000 wrap keeps its raw '
+                   'difference and is rejected as too far although the processor reaches the target' % (ty.get('t'), abs(ty.get('bits', 0))))
+    if n7 < 3:
+        raise AnalysisBroken('only %d branch distance computations found in code65.c' % n7)
     chk.rule('C14-R6', '4004/4040 JCN and ISZ: the page against which the target is checked (assembler) and from which '
              'the target is rebuilt (disassembler) is the page of the address behind the two-word instruction', min_instances=4)
     page_reference_rule(chk, facts, 'C14-R6')
